@@ -37,7 +37,7 @@ func sgn(b bool) int {
 func RunSorters(e *Env) {
 	R := e.R
 	R.Rule = "slices of 0-40 nodes drawn (with repetition) from a pool of real nodes of three managers (repeated IDs across managers, repeated ports on different loopback hosts, last-error state set through the accessor and, for some, by real failed calls), " +
-		"sorted by every sequence of 1-4 of the provided keys (ID, Port, LastNodeError) incl. repeats; oracle: result is a permutation of the input (multiset of pointers) and non-decreasing under the lexicographic order of the model keys; " +
+		"plus four nodes connected to live servers (connected and with a last error on record); sorted by every sequence of 1-4 of the provided keys (ID, Port, LastNodeError) incl. repeats, one sorting in eight with a sorter that was used before while another sorter was created and used in between; oracle: result is a permutation of the input (multiset of pointers) and non-decreasing under the lexicographic order of the model keys; " +
 		"each provided key alone is irreflexive and asymmetric on all pairs of the pool; distinct = (key sequence, multiset of (id, port, err) triples in input order)"
 	R.Assume("model keys: numeric id, numeric port, LastErr() != nil")
 	keys := []sortKey{
@@ -99,6 +99,17 @@ func RunSorters(e *Env) {
 			}
 		}
 	}()
+	// a fourth manager whose nodes are connected to live servers: a node may be connected and have a last error on record
+	live, err := h.NewCluster(h.Options{N: 4, Block: true, DialTimeout: 2 * time.Second})
+	if err != nil {
+		R.Inconc("cluster: " + err.Error())
+		return
+	}
+	defer live.Close()
+	for _, n := range live.Mgr.Nodes() {
+		pool = append(pool, n.RawNode)
+	}
+	R.Count("pool_nodes_connected_to_live_servers", 4)
 	time.Sleep(100 * time.Millisecond) // real failed connects set a real last error on the nodes
 	realErrs := 0
 	for _, n := range pool {
@@ -174,7 +185,20 @@ func RunSorters(e *Env) {
 		for _, k := range ks {
 			less = append(less, k.less)
 		}
-		t := h.Go("sort", func() { orderedBy(less).Sort(out) })
+		// one sorting in eight re-uses a sorter that has sorted another slice before, with another sorter created and used in between
+		reuse := it%8 == 3
+		t := h.Go("sort", func() {
+			srt := orderedBy(less)
+			if reuse {
+				srt.Sort(append([]*gorums.RawNode(nil), in...))
+				other := keys[(it/8)%len(keys)].less
+				orderedBy([]func(a, b *gorums.RawNode) bool{other}).Sort(append([]*gorums.RawNode(nil), in...))
+			}
+			srt.Sort(out)
+		})
+		if reuse {
+			R.Count("sortings_with_a_reused_sorter", 1)
+		}
 		select {
 		case <-t.Done:
 		case <-time.After(10 * time.Second):
